@@ -217,6 +217,12 @@ func ResultPathsDeep(fn *ssa.Function, idx int, want bool) ([]CondPath, bool) {
 	return resultPathsDeep(fn, idx, want, nil, 0)
 }
 
+// ResultPathsDeepVia: ResultPathsDeep of a helper called at the given site, its conditions
+// readable in the caller's terms (Cond.Path).
+func ResultPathsDeepVia(h *ssa.Function, idx int, want bool, site *ssa.Call) ([]CondPath, bool) {
+	return resultPathsDeep(h, idx, want, []*ssa.Call{site}, 0)
+}
+
 func resultPathsDeep(fn *ssa.Function, idx int, want bool, chain []*ssa.Call, depth int) ([]CondPath, bool) {
 	base, ok := ResultPaths(fn, idx, want)
 	if !ok {
